@@ -7,7 +7,7 @@ import os
 import sys
 import time
 
-sys.path.insert(0, "/verif/harness")
+sys.path.insert(0, os.path.join(os.environ.get("VERIF_ROOT", "/verif"), "harness"))
 import core  # noqa: E402
 import gen_tables  # noqa: E402
 import wire  # noqa: E402
@@ -26,8 +26,8 @@ def main():
     tier = args[1] if len(args) > 1 else os.environ.get("VERIF_TIER", "quick")
     t0 = time.time()
     import pycfmodel
-    if not os.path.realpath(pycfmodel.__file__).startswith("/repo/"):
-        print(f"pycfmodel is loaded from {pycfmodel.__file__}, not from /repo")
+    if not os.path.realpath(pycfmodel.__file__).startswith(str(core.REPO) + "/"):
+        print(f"pycfmodel is loaded from {pycfmodel.__file__}, not from {core.REPO}")
         return 2
 
     notes = []
@@ -80,7 +80,7 @@ def main():
         if hasattr(pmod, "crosscheck_state"):
             st_expr, imports = pmod.crosscheck_state()
         else:
-            st_expr, imports = "Runner.init", ""
+            st_expr, imports = "RState.init", ""
         samples = stats.runner_samples[:240]
         kc = core.kernel_crosscheck(pid, samples, st_expr, imports)
         if not kc[1]:
